@@ -526,11 +526,22 @@ def rule_pref(c, prog, R="C08.pref"):
                 a = core.strip(n["args"][0])
                 if a.get("k") == "Tup" and a["args"] and (core.strip(a["args"][0]).get("ty") == "bool"):
                     r = core.strip(a["args"][0])
+                    if r.get("k") == "Path" and r.get("res") == "local":
+                        # `let migrates = <expr>; .. insert((migrates, name))`
+                        for st_ in core.walk_lets(cfn.body):
+                            if st_["pat"].get("k") == "Binding" and st_["pat"].get("lid") == r.get("lid") and st_.get("init") is not None:
+                                r = core.strip(st_["init"])
                     neg = False
                     while r.get("k") == "Unary" and r.get("op") in ("!", "Not"):
                         neg = not neg
                         r = core.strip(r["e"])
                     if r.get("k") == "MethodCall" and r["m"] in ("is_some", "is_none") and "PropertyMigration" in (core.strip(r["recv"]).get("ty") or ""):
+                        rroot, rpath = core.place_root(r["recv"])
+                        if [q for q in rpath if not q.startswith(".")]:
+                            # `prop_info.migration.is_some()`: whether the COLUMN migrates (some spelling seen so far
+                            # does), not whether THIS spelling does — every alias met after a legacy name ranks as legacy
+                            c.violation(R, "binary-writer|rank-of-column", f"collect_type_info ranks a spelling by `{core.fingerprint(r, 4)}`, the migration recorded for the whole column, instead of by whether the spelling being filed migrates: once a legacy name has been seen, aliases of the new property rank as legacy too and the set is back in name order (BrickColor before Color3uint8), depending on which sibling is visited first", core.loc(n), instance=inst)
+                            return
                         migrating_last = (r["m"] == "is_some") != neg
                         if not migrating_last:
                             c.violation(R, "binary-writer|rank-reversed", f"collect_type_info ranks the spellings in PropInfo.{sets[0]['name']} so that migrating (legacy) spellings sort before spellings of the property itself: a migrated value then always beats an explicit one stored under an alias", core.loc(n), instance=inst)
